@@ -65,6 +65,9 @@ pub struct PacketCfg {
     pub unique_tags: bool,
     /// restrict names to letter-digit-hyphen-underscore (so they survive text conversion)
     pub max_section: usize,
+    /// the question name is written as a compression pointer into the 12-byte header (id low
+    /// byte 1, flags 0x8100: offset 1 then reads as the one-label name "\x81.")
+    pub header_ptr: bool,
 }
 
 pub fn gen_label(rng: &mut Rng) -> Vec<u8> {
@@ -585,6 +588,22 @@ pub fn gen_msg(rng: &mut Rng, cfg: &PacketCfg) -> Msg {
             m.sec[s].insert(pos, r);
         }
     }
+    if cfg.header_ptr {
+        m.id = (m.id & 0xff00) | 0x0001;
+        m.flags = 0x8100;
+        let hn = Name(vec![vec![0x81]]);
+        if let Some(q) = m.q.as_mut() {
+            q.name = hn.clone();
+        }
+        // a record or two under the same name, so that they too can point into the header
+        for s in 0..3 {
+            if let Some(r) = m.sec[s].first_mut() {
+                if r.rtype != T_OPT && rng.bool() {
+                    r.name = hn.clone();
+                }
+            }
+        }
+    }
     // OPT placement
     if cfg.opt != OptPlace::Absent {
         let opt = gen_opt(rng);
@@ -615,6 +634,15 @@ pub fn gen_msg(rng: &mut Rng, cfg: &PacketCfg) -> Msg {
 
 pub fn gen_packet_cfg(rng: &mut Rng, shape_weights: &[u32; 7]) -> PacketCfg {
     let shape = SHAPES[rng.weighted(shape_weights)];
+    let mut cfg = gen_packet_cfg_inner(rng, shape);
+    if matches!(shape, Shape::Tiny | Shape::Typical | Shape::Many) && rng.chance(1, 40) {
+        cfg.header_ptr = true;
+        cfg.response = true;
+    }
+    cfg
+}
+
+fn gen_packet_cfg_inner(rng: &mut Rng, shape: Shape) -> PacketCfg {
     PacketCfg {
         shape,
         density: if shape == Shape::Inflating {
@@ -637,12 +665,19 @@ pub fn gen_packet_cfg(rng: &mut Rng, shape_weights: &[u32; 7]) -> PacketCfg {
             Shape::Many | Shape::ManySuffixes => 12,
             _ => 5,
         },
+        header_ptr: false,
     }
 }
 
 /// Encodes a message with the configured layout. Falls back to the literal layout when the
 /// compressed one would overflow 65535 bytes.
 pub fn encode_with(m: &Msg, cfg: &PacketCfg, layout_seed: u64) -> Vec<u8> {
+    if cfg.header_ptr {
+        let mut e = Encoder::seeded(layout_seed, 1000);
+        e.add_site(1, vec![vec![0x81]]);
+        e.put_msg(m);
+        return e.buf;
+    }
     if cfg.density == 0 {
         encode_literal(m)
     } else {
